@@ -8,8 +8,12 @@ SPEC: `Spec/LineInfo.lean` — for a program given as a nesting tree (main file,
 REPT/IRP/IRPN/IRPC/WHILE blocks, continuation lines) `spec` computes structurally the file being read and the admissible
 lines of every executed code statement; `judge` joins debug-file records (sorted by address) with them.
 MODEL: `Model/LineInfo.lean` — the machine of `as.c` that produces what `BookKeeping` hands to `AddLineInfo`:
-`MomLineCounter`, `CurrLine`, `CurrFileName`, `GenerateProcessor` (`StartLine`, `FromFile`), the `*_Processor` line
-arithmetic, `ExpandINCLUDE_Core` / `INCLUDE_Restorer`; `asmfnums.c AddFile/GetFileNum`.
+`MomLineCounter`, `CurrLine`, `CurrFileName`, `GenerateProcessor` (`StartLine`, `FromFile`), `AddBodyLine` (`LineNums`: the
+source line offset stored with every body line of a REPT/IRP/IRPC/WHILE block), the `*_Processor` line arithmetic,
+`ExpandINCLUDE_Core` / `INCLUDE_Restorer`; `asmfnums.c AddFile/GetFileNum`.
+
+The theorems hold for **every** nesting tree; the only hypothesis, `bodyWf`, says that the tree describes a program: a
+logical line occupies at least one physical line (`phys ≥ 1`).
 
 `modelEntries` are the (file, line, address) records the machine produces for a program whose code statements store
 `stmtBytes id` contiguously from `org` on.
@@ -23,7 +27,7 @@ def modelEntries (org : Nat) (name : String) (b : Body) : List Entry :=
 
 /-- **Positions.**  For every program (any nesting of include files — also included repeatedly or with equal base names —,
 macro calls and REPT/IRP/IRPN/IRPC/WHILE blocks with any iteration counts, INCLUDE statements inside block and macro
-bodies, continuation lines outside block bodies) the machine hands `AddLineInfo`, for every executed code statement and
+bodies, continuation lines anywhere — also inside block bodies) the machine hands `AddLineInfo`, for every executed code statement and
 in execution order, the statement's start address, the file whose text is being read, and a line of that file which is
 one of the statement's own physical lines or the line of a statement of that file enclosing it (macro call, opening
 line of a block). -/
@@ -34,14 +38,14 @@ theorem C19_lines_positions (name : String) (org : Nat) (b : Body) (h : bodyWf b
   exact judge_of_agree _ _ org (realBody_adm b name 0 (.phys 0) (some 0) [] rfl trivial h)
 
 /-- **Physical position.**  Where the text of the statement stands in the file being read — no macro call and no block
-inside a block on the way (include files at any depth, INCLUDE inside block bodies, code after the blocks) — the
-recorded line is one of the statement's own physical lines (the last one, for a statement written with continuation
+inside a block on the way (include files at any depth, INCLUDE inside block bodies, code after the blocks, continuation
+lines anywhere, also in front of the statement inside a block body) — the recorded line is one of the statement's own physical lines (the last one, for a statement written with continuation
 lines), in the file that contains it. -/
 theorem C19_lines_exact (name : String) (org : Nat) (b : Body) (h : bodyWf b = true) (hd : bodyDirect b = true) :
     judgeX (modelEntries org name b) (layout org (spec name b)) = true := by
   unfold modelEntries
   rw [run_eq_real]
-  exact judgeX_of_agreeX _ _ org (realBody_exact b name 0 (.phys 0) (some 0) [] rfl hd h)
+  exact judgeX_of_agreeX _ _ org (realBody_exact b name 0 (.phys 0) (some 0) [] rfl hd trivial h)
 
 /-- the program of the C19-e demonstration: `db` (line 3), `rept 2` (4) … `db` (5), `include "body.inc"` (6), `db` (7),
 `endm` (8), then `db` lines 9, 10, 11; body.inc has two `db` lines -/
@@ -139,15 +143,30 @@ theorem C19_lines_files_listed (name : String) (evs : List Ev) :
       | head => exact (ih _).1 a ha
       | tail _ h => exact (ih _).2 f h
 
-/-- **Finding (proved negation)**: a continuation line inside a block body.  `rept 2` (line 3) / `db …\` + `…` (lines 4–5) /
-`db` (6) / `db` (7) / `endm`: the machine numbers the replayed body lines `StartLine + LineZ` by *logical* lines —
-4, 5, 6 — so the second statement is attributed to line 5 (the continuation piece of the first) and the third to line 6
-(the second statement): the records do not pass the SPEC's join. -/
-theorem C19_finding_lines_continuation_in_block :
-    ∃ b : Body, bodyWf b = false ∧
-      (modelEntries 256 "w.asm" b).map (fun e => e.line) = [4, 5, 6, 4, 5, 6] ∧
-      judge (modelEntries 256 "w.asm" b) (layout 256 (spec "w.asm" b)) = false :=
-  ⟨.cons (.plain 1) (.cons (.plain 1) (.cons (.rept 2 (.cons (.fault 2 1) (.cons (.fault 1 2) (.cons (.fault 1 3) .nil)))) .nil)),
-    by decide⟩
+/-- the program of the (repaired) finding `loop-body-line-after-continuation-line`: `rept 2` (line 3) / `db …\` + `…`
+(lines 4–5) / `db` (6) / `db` (7) / `endm` -/
+def contInBlock : Body :=
+  .cons (.plain 1) (.cons (.plain 1) (.cons (.rept 2 (.cons (.fault 2 1) (.cons (.fault 1 2) (.cons (.fault 1 3) .nil)))) .nil))
+
+/-- **Continuation line inside a block body** (was `C19_finding_lines_continuation_in_block`: the machine numbered replayed
+body lines `StartLine + LineZ` by *logical* lines — 4, 5, 6 — and failed the join).  With the offsets `AddBodyLine` stores
+the three statements are recorded, in both passes, at their physical lines 5 (the last line of the continued statement),
+6 and 7, and the records pass the SPEC's join in the exact reading. -/
+theorem C19_lines_continuation_in_block :
+    (modelEntries 256 "w.asm" contInBlock).map (fun e => e.line) = [5, 6, 7, 5, 6, 7] ∧
+    judgeX (modelEntries 256 "w.asm" contInBlock) (layout 256 (spec "w.asm" contInBlock)) = true := by
+  decide
+
+/-- non-vacuity of `C19_lines_positions` / `C19_lines_exact` for continuation lines inside block bodies of every kind, with
+an INCLUDE between them and a continued line as the last body line; the block's tag stores the offsets 2, 3, 5 (IRP) -/
+example :
+    let inc : Body := .cons (.fault 3 7) (.cons (.fault 1 8) .nil)
+    let b : Body := .cons (.plain 2) (.cons (.irp 0 ["A", "B"] (.cons (.fault 2 1) (.cons (.incl "i.inc" inc) (.cons (.fault 2 2) .nil))))
+      (.cons (.while_ 1 (.cons (.plain 3) (.cons (.fault 1 3) .nil))) (.cons (.fault 1 4) .nil)))
+    bodyWf b = true ∧ bodyDirect b = true ∧
+    (modelEntries 0 "m.asm" b).map (fun e => (e.file, e.line)) =
+      [("m.asm", 5), ("i.inc", 3), ("i.inc", 4), ("m.asm", 8), ("m.asm", 5), ("i.inc", 3), ("i.inc", 4), ("m.asm", 8),
+       ("m.asm", 14), ("m.asm", 16)] := by
+  decide
 
 end AslModel.C19
